@@ -21,7 +21,9 @@ before touching any state;
 reserved_len under the cursor + reservation <= available test, and finish_with_mac gives exactly that much back before
 the append (the premise of its two unwraps); unsigned_len = key name + algorithm name + 26 (+6 with BADTIME),
 signed_len adds the algorithm's output size;
-(d) a failed operation leaves the message unchanged (rollback completeness, shared with C12).
+(d) a failed operation leaves the message unchanged (rollback completeness, shared with C12);
+(e) clear_rrs resets every field the add_* operations may have changed (cursor, section, both compression anchors, the
+three counters), so records appended after a discard (OPT, TSIG) cannot point into discarded octets (shared with C12).
 Not decided: that every record body is well-formed for arbitrary zone data; decodability by an independent decoder.
 """
 ASSUMPTIONS = ['every CFG path is assumed feasible']
@@ -134,3 +136,6 @@ def check(R, F):
 
     # ---- (d)
     wc.check_rollback_completeness(R, F, 'rollback')
+
+    # ---- (e) discarding records leaves no trace that later records could refer to
+    wc.check_clear_rrs(R, F)
